@@ -7,7 +7,7 @@
      e_cis x      = (cos x, sin x)            np.exp(1j*x), np.cos, np.sin
      e_bsamp r    = (cos t, sin t), t = arccos(r**0.5)     BeamSplitter.get_unitary
      e_sqrt x     = x ** 0.5                               Loss.get_unitary
-     e_floor x    = floor x                                float %
+     e_fdiv x y   = floor (x / y)                          float %
      e_ints s k   = k-th value of default_rng(s).integers(2**31 - 1)
      e_unif src k = k-th value of <generator src>.random()
      e_norm src k = k-th value of <generator src>.standard_normal()
@@ -32,7 +32,7 @@ Section Reck.
   Notation co := (cplx o).
 
   Record env : Type := mkEnv {
-    e_cis : K -> C; e_bsamp : K -> K * K; e_sqrt : K -> K; e_floor : K -> Z;
+    e_cis : K -> C; e_bsamp : K -> K * K; e_sqrt : K -> K; e_fdiv : K -> K -> Z;
     e_pi : K;
     e_eps2 : K;      (* (1e-20)^2 : threshold of the "already nulled" branch, on |u|^2 *)
     e_prec : K;      (* check_null precision 1e-10 *)
@@ -224,7 +224,7 @@ Section Reck.
   (* float % (2 pi) as the real modulo *)
   Definition two_pi (E : env) : K := kmul o two (e_pi E).
   Definition pmod (E : env) (x : K) : K :=
-    ksub o x (kmul o (kofZ o (e_floor E (kmul o x (kinv o (two_pi E))))) (two_pi E)).
+    ksub o x (kmul o (kofZ o (e_fdiv E x (two_pi E))) (two_pi E)).
 
   (* (v + get_phase_offset()) % (2 pi); amplitude = amp(v) * exp(i offset) *)
   Definition program_phase (E : env) (fuel : nat) (v : K) (amp : C) (ph : dobj) : res (phase * dobj) :=
